@@ -37,23 +37,23 @@ package handler
 // leases.  "Its" leases are those whose provider is this account (the lease records carry the canonical text
 // of the provider's address), however the update spells the owner.
 //@ func (msgServer).UpdateProvider$1
-//@   requires pwired(ms)
+//@   requires pwired(ms) && owner == unbech32(msg.Owner)
 //@   modifies found, err
-//@   ensures [skip] !(lease.LeaseID.Provider == bech32(owner) && lease.State == mtypes.LeaseActive) ==> !result && err == old(err)
-//@   ensures [missing] lease.LeaseID.Provider == bech32(owner) && lease.State == mtypes.LeaseActive && !KVhas[pmsk(ms)][orderKeyOf(asOrder(lease.LeaseID))] ==> result && err != nil
-//@   ensures [covered] lease.LeaseID.Provider == bech32(owner) && lease.State == mtypes.LeaseActive && leaseCovered(KVhas[pmsk(ms)], KVval[pmsk(ms)], lease, msg.Attributes) ==> !result && err == old(err)
-//@   ensures [refused] lease.LeaseID.Provider == bech32(owner) && lease.State == mtypes.LeaseActive && KVhas[pmsk(ms)][orderKeyOf(asOrder(lease.LeaseID))]
-//@        && !leaseCovered(KVhas[pmsk(ms)], KVval[pmsk(ms)], lease, msg.Attributes) ==> result && err != nil
+//@   ensures [skip] old(!(lease.LeaseID.Provider == bech32(owner) && lease.State == mtypes.LeaseActive)) ==> !result && err == old(err)
+//@   ensures [missing] old(lease.LeaseID.Provider == bech32(owner) && lease.State == mtypes.LeaseActive && !KVhas[pmsk(ms)][orderKeyOf(asOrder(lease.LeaseID))]) ==> result && err != nil
+//@   ensures [covered] old(lease.LeaseID.Provider == bech32(owner) && lease.State == mtypes.LeaseActive && leaseCovered(KVhas[pmsk(ms)], KVval[pmsk(ms)], lease, msg.Attributes)) ==> !result && err == old(err)
+//@   ensures [refused] old(lease.LeaseID.Provider == bech32(owner) && lease.State == mtypes.LeaseActive && KVhas[pmsk(ms)][orderKeyOf(asOrder(lease.LeaseID))]
+//@        && !leaseCovered(KVhas[pmsk(ms)], KVval[pmsk(ms)], lease, msg.Attributes)) ==> result && err != nil
 //@ func (msgServer).UpdateProvider
 //@   requires msg != nil && pwired(ms)
 //@   modifies ghost KVhas, ghost KVval, ghost G, ghost EvN, ghost EvLog, ghost It_all
 //@   call 1 invariant KVhas == atloop(KVhas) && KVval == atloop(KVval) && EvN == atloop(EvN) && EvLog == atloop(EvLog)
 //@   call 1 invariant (cbstop <==> err != nil)
 //@   call 1 invariant forall j: int :: 0 <= j && j < cbidx && !(cbstop && j == cbidx - 1) ==>
-//@        (leaseAt(KVhas[pmsk(ms)], KVval[pmsk(ms)], j).LeaseID.Provider == bech32(unbech32(msg.Owner)) && leaseAt(KVhas[pmsk(ms)], KVval[pmsk(ms)], j).State == mtypes.LeaseActive ==>
+//@        old(leaseAt(KVhas[pmsk(ms)], KVval[pmsk(ms)], j).LeaseID.Provider == bech32(unbech32(msg.Owner)) && leaseAt(KVhas[pmsk(ms)], KVval[pmsk(ms)], j).State == mtypes.LeaseActive ==>
 //@            leaseCovered(KVhas[pmsk(ms)], KVval[pmsk(ms)], leaseAt(KVhas[pmsk(ms)], KVval[pmsk(ms)], j), msg.Attributes))
 //@   ensures [guard] result1 == nil ==> (forall j: int :: 0 <= j && j < enumLen(old(KVhas)[pmsk(ms)], "\x03\x00") ==>
-//@        (leaseAt(old(KVhas)[pmsk(ms)], old(KVval)[pmsk(ms)], j).LeaseID.Provider == bech32(unbech32(msg.Owner)) && leaseAt(old(KVhas)[pmsk(ms)], old(KVval)[pmsk(ms)], j).State == mtypes.LeaseActive ==>
-//@            leaseCovered(old(KVhas)[pmsk(ms)], old(KVval)[pmsk(ms)], leaseAt(old(KVhas)[pmsk(ms)], old(KVval)[pmsk(ms)], j), old(msg.Attributes))))
+//@        old(leaseAt(KVhas[pmsk(ms)], KVval[pmsk(ms)], j).LeaseID.Provider == bech32(unbech32(msg.Owner)) && leaseAt(KVhas[pmsk(ms)], KVval[pmsk(ms)], j).State == mtypes.LeaseActive ==>
+//@            leaseCovered(KVhas[pmsk(ms)], KVval[pmsk(ms)], leaseAt(KVhas[pmsk(ms)], KVval[pmsk(ms)], j), msg.Attributes)))
 
 //@ property C08 := (msgServer).UpdateProvider#*, (msgServer).UpdateProvider$1#*
